@@ -774,10 +774,36 @@ fn run() {
                     }
                     _ => lines.push("bad-op".into()),
                 },
+                // venue messages that are not market data (heartbeats, venue errors, command responses)
+                "noise" if op.len() == 2 => match (&state, noise_json(op[1].as_str())) {
+                    (Some((ex, kind, map)), Some((venues, json))) if venues.contains(&ex.as_str()) => {
+                        transform(ex, *kind, map, json, lines);
+                    }
+                    _ => lines.push("bad-op".into()),
+                },
                 _ => lines.push("bad-op".into()),
             }
         }
     });
+}
+
+/// the venues' documented non-market messages (kraken/message.rs tests, bybit/subscription.rs docs)
+fn noise_json(v: &str) -> Option<(&'static [&'static str], &'static str)> {
+    const KRAKEN: &[&str] = &["kraken"];
+    const BYBIT: &[&str] = &["bybit_spot", "bybit_perpetuals_usd"];
+    Some(match v {
+        "kraken_hb" => (KRAKEN, r#"{"event": "heartbeat"}"#),
+        "kraken_err" => (KRAKEN, r#"{"errorMessage": "Malformed request", "event": "error"}"#),
+        "bybit_resp" => (
+            BYBIT,
+            r#"{"success":true,"ret_msg":"subscribe","conn_id":"2324d924-aa4d-45b0-a858-7b8be29ab52b","req_id":"10001","op":"subscribe"}"#,
+        ),
+        "bybit_pong" => (
+            BYBIT,
+            r#"{"success":true,"ret_msg":"pong","conn_id":"0970e817-426e-429a-a679-ff7f55e0b16a","op":"ping"}"#,
+        ),
+        _ => return None,
+    })
 }
 
 // ------------------------------------------------------------------------------------------ generator
@@ -960,6 +986,13 @@ fn generate(seed: u64, n_cases: usize, tier: &str) {
         let n_msg = rng.range(2, if thorough { 10 } else { 6 });
         let base_time: i64 = 1_700_000_000_000 + rng.range(0, 1_000_000) * 1000;
         for _ in 0..n_msg {
+            // non-market traffic in between (heartbeats, venue errors, command responses)
+            if ex == "kraken" && rng.chance(25) {
+                out.line(format!("noise {}", rng.pick(&["kraken_hb", "kraken_hb", "kraken_err"])));
+            }
+            if ex.starts_with("bybit_") && rng.chance(25) {
+                out.line(format!("noise {}", rng.pick(&["bybit_resp", "bybit_pong"])));
+            }
             // whose market does the message name?
             let roll = rng.below(100);
             let (symbol, chan) = if roll < 55 {
@@ -986,7 +1019,7 @@ fn generate(seed: u64, n_cases: usize, tier: &str) {
                 "l1" => 2,
                 "liqs" => 1,
                 "l2" => rng.range(1, 2),
-                _ if ex == "bitfinex" => if rng.chance(12) { 0 } else { 1 },
+                _ if ex == "bitfinex" => if rng.chance(25) { 0 } else { 1 },
                 _ if single_trade(ex) => 1,
                 _ => *rng.pick(&[0i64, 1, 1, 2, 3]),
             } as usize;
